@@ -27,6 +27,10 @@ def pivot():
         U("Blu", disabled=True),
         U("Gone", disabled=True, serialize=["gone"]),
     ], derives=d, note="(a,b,c) unit/tuple/named, serialize x2 + to_string, explicit spelling hides the identifier, disabled near-miss"))
+    S.append(EnumSpec("UniUpper", [U("Stra\u00dfe"), U("Z\u00fcrich", fields=[Field("u8")]), U("Plain")], derives=d, serialize_all="UPPERCASE",
+                      note="non-ASCII identifiers under UPPERCASE (sharp s expands to SS; the half-converted form must be rejected)"))
+    S.append(EnumSpec("UniLower", [U("\u00c9cu"), U("\u00c0Bas", fields=[Field("u8")]), U("Plain")], derives=d, serialize_all="lowercase",
+                      note="non-ASCII identifiers under lowercase"))
     S.append(EnumSpec("ViaMacro", [U("Red", serialize=["r", "red"]), U("Blue", fields=[Field("u8")], to_string="blu", serialize=["b"]),
                                    U("Green", fields=[Field("u16", name="x")], named=True), U("Yel", aci=True, serialize=["ye"]), U("Off", disabled=True)],
                       derives=d, macro_args=[("s", "literal", '"red"'), ("b", "literal", '"blu"'), ("t", "ty", "u16"), ("y", "literal", '"ye"')], macro_replace=True,
